@@ -350,24 +350,16 @@ func LexerIdentifierLanguage(w *World) ([2]string, map[string]bool, error) {
 		return [2]string{}, nil, err
 	}
 	var first, rest string
-	for _, r := range lf.Regexes {
-		if r.Method != "MatchString" {
+	// the identifier arm: character tests whose class holds the letters; the one that also
+	// admits digits decides the following characters, the one that does not decides the first
+	for _, t := range LexCharTests(w) {
+		if !(t.Set.Has('a') && t.Set.Has('z') && t.Set.Has('A') && t.Set.Has('Z')) {
 			continue
 		}
-		cc, ok := charClassOf(r.Tree)
-		if !ok {
-			continue
-		}
-		hasDigit := false
-		for i := 0; i+1 < len(cc.Rune); i += 2 {
-			if cc.Rune[i] <= '5' && '5' <= cc.Rune[i+1] {
-				hasDigit = true
-			}
-		}
-		if hasDigit {
-			rest = classString(cc)
+		if t.Set.Has('5') {
+			rest = t.Set.ClassString()
 		} else {
-			first = classString(cc)
+			first = t.Set.ClassString()
 		}
 	}
 	if first == "" || rest == "" {
